@@ -28,8 +28,13 @@ def rows():
         silent.append('%s (rc %s)' % (p, r.get('rc')))
     ok = (m.get('patch_applies') and m.get('tests_passed') == 52 and not m.get('tests_failed')
           and m.get('demo_unpatched_rc') == 0 and m.get('demo_patched_rc') not in (0, None))
+    tail = '' if ok else ' (not confirmed)'
+    if m.get('neutralised_by_fix'):
+      tail = ' (neutralised by fix %s: demo passes with the rebased patch)' % m['neutralised_by_fix']
+    if m.get('reason_uncaught') and not caught:
+      tail += ' ' + m['reason_uncaught']
     out.append('| %s | %s | %s | %s |%s' % (os.path.basename(d), ', '.join(files), '; '.join(caught) or '**none**',
-                                           ', '.join(silent), '' if ok else ' (not confirmed)'))
+                                           ', '.join(silent), tail))
   return out
 
 
